@@ -839,9 +839,9 @@ func C02(t Tier) int {
 	v := aolVariant{ID: "C02", Forged: true, OwnACL: true, Ctl: []string{"NB"}}
 	sys := aolSystem(v)
 	dl := deadline(t, 100*time.Second, 15*time.Minute)
-	bounds := []explore.Bounds{{Depth: 3, V: 1, Deadline: dl}}
+	bounds := []explore.Bounds{{Depth: 4, V: 1, Deadline: dl}}
 	if t.Thorough {
-		bounds = []explore.Bounds{{Depth: 3, V: 1, Deadline: dl}, {Depth: 4, V: 1, Deadline: dl}, {Depth: 5, V: 1, Deadline: dl}}
+		bounds = []explore.Bounds{{Depth: 4, V: 1, Deadline: dl}, {Depth: 5, V: 1, Deadline: dl}, {Depth: 6, V: 1, Deadline: dl}}
 	}
 	RunGraph(run, sys, bounds, 8)
 	run.Assumptions = []string{
@@ -861,9 +861,9 @@ func C13(t Tier) int {
 		{Owners: [][]byte{{0x41}, append(append([]byte{}, A.Addr...), 0x01), bytes.Repeat([]byte{0x42}, 32), bytes.Repeat([]byte{0x43}, 255), A.Addr[:19]},
 			Topics: []string{"a", "ab", "abc", strings.Repeat("z", 70)}},
 	}
-	depth := 3
+	depth := 4
 	if t.Thorough {
-		depth = 4
+		depth = 5
 	}
 	for i, in := range injects {
 		v := aolVariant{ID: fmt.Sprintf("C13/init%d", i), OwnCount: true, Ctl: []string{"NB", "XI"}, Inject: in}
